@@ -8,7 +8,11 @@ sys.path.insert(0, os.path.dirname(os.path.abspath(__file__)))
 import mutcheck as mc
 
 def main():
-    names = sys.argv[1:] or sorted(os.path.basename(d) for d in glob.glob(os.path.join(mc.ROOT, "seeded", "C*")))
+    args = sys.argv[1:]
+    out_path = os.path.join(mc.ROOT, "seeded", "REGRESSION.json")
+    if args[:1] == ["--out"]:
+        out_path, args = args[1], args[2:]
+    names = args or sorted(os.path.basename(d) for d in glob.glob(os.path.join(mc.ROOT, "seeded", "C*")))
     out = {}
     mc.setup()
     try:
@@ -27,10 +31,10 @@ def main():
             print(n, prop, "exit", c["exit"], c["wall_s"], "s", flush=True)
             # written after every seed, so that an interrupted run leaves what it has
             json.dump({"at": time.strftime("%Y-%m-%d %H:%M:%S"), "complete": False, "seeds_total": len(names), "results": out},
-                      open(os.path.join(mc.ROOT, "seeded", "REGRESSION.json"), "w"), indent=1)
+                      open(out_path, "w"), indent=1)
     finally:
         mc.teardown()
-    p = os.path.join(mc.ROOT, "seeded", "REGRESSION.json")
+    p = out_path
     json.dump({"at": time.strftime("%Y-%m-%d %H:%M:%S"), "complete": True, "seeds_total": len(names), "results": out}, open(p, "w"), indent=1)
     missed = [n for n, v in out.items() if v.get("exit") != 1]
     print("seeds:", len(out), "not caught:", missed)
